@@ -62,10 +62,11 @@ func (service *importCache) getOrAdd(key string, add func() (rel.Expr, error)) (
 	service.mutex.Lock()
 	defer func() {
 		if adding {
-			// If panicked trying to add, remove the key from the cache so
-			// someone else can have a go.
+			// If add failed or panicked, remove the key from the cache so
+			// someone else can have a go, and wake those waiting for it.
 			service.mutex.Lock()
 			delete(service.cache, key)
+			service.cond.Broadcast()
 		}
 		service.mutex.Unlock()
 	}()
